@@ -47,7 +47,11 @@ def sdv__str(glob_pattern: StringSdv) -> MatcherSdv[str]:
 
 
 def _match_path(model: Path, pattern: str) -> bool:
-    return model.match(pattern)
+    try:
+        return model.match(pattern)
+    except ValueError:
+        # pathlib refuses a pattern without components ('' or '.'): no path matches it
+        return False
 
 
 def _match_str(model: str, pattern: str) -> bool:
